@@ -246,9 +246,10 @@ class CSSImportRule(cssrule.CSSRule):
 
             # set all
             if ok:
+                # may raise (keyword spelled in a way atkeyword rejects): first
+                self.atkeyword = new['keyword']
                 self._setSeq(newseq)
 
-                self.atkeyword = new['keyword']
                 self.hreftype = new['hreftype']
                 self.name = new['name']
 
